@@ -12,6 +12,13 @@ import itertools
 from .absint import Interp, Sym, AStr, Rep, Opaque, Unsupported
 
 MAPPING = [("k1", ["v1", "v2"]), ("k2", ["v3"]), ("k3", [])]
+# further shapes for the thorough tier: three values, flag first, single key, only flags
+MAPPINGS_THOROUGH = [
+    [("k3", []), ("k1", ["v1", "v2", "v3"]), ("k2", ["v4"])],
+    [("k1", ["v1"])],
+    [("k2", []), ("k3", [])],
+    [("k1", ["v1", "v2"]), ("k2", ["v3", "v4"])],
+]
 
 
 def configs(tier="quick"):
@@ -20,10 +27,16 @@ def configs(tier="quick"):
             ("gff3", "gtf"), (False, True), (False, True), (False, True), seps, ("=", " "), (False, True)):
         yield {"fmt": fmt, "repeated keys": rep, "quoted GFF2 values": quoted, "trailing semicolon": trailing,
                "field separator": fsep, "keyval separator": kvsep, "multival separator": ",",
-               "leading semicolon": False, "order": ["k1", "k2", "k3"], "_ignore": ignore}
+               "leading semicolon": False, "order": ["k1", "k2", "k3"], "_ignore": ignore, "_keep_order": False}
+    # keep_order: keys are printed in the dialect's order, keys unknown to it last (in mapping order)
+    for order in (["k2", "k1", "k3"], ["k3", "k1"], ["k2"], [], ["k3", "k2", "k1", "zz"]):
+        for fmt, rep in itertools.product(("gff3", "gtf"), (False, True)):
+            yield {"fmt": fmt, "repeated keys": rep, "quoted GFF2 values": fmt == "gtf", "trailing semicolon": False,
+                   "field separator": ";", "keyval separator": "=" if fmt == "gff3" else " ", "multival separator": ",",
+                   "leading semicolon": False, "order": order, "_ignore": False, "_keep_order": True}
 
 
-def spec_tokens(cfg):
+def spec_tokens(cfg, mapping_=None):
     encode = cfg["fmt"] == "gff3" and not cfg["_ignore"]
     parts = []
 
@@ -32,7 +45,11 @@ def spec_tokens(cfg):
 
     def q(toks):
         return ['"'] + toks + ['"'] if cfg["quoted GFF2 values"] else toks
-    for key, vals in MAPPING:
+    mapping = list(mapping_ or MAPPING)
+    if cfg.get("_keep_order"):
+        rank = lambda kv: cfg["order"].index(kv[0]) if kv[0] in cfg["order"] else 10 ** 6
+        mapping = sorted(mapping, key=rank)  # stable: unknown keys keep their mapping order
+    for key, vals in mapping:
         groups = [[v] for v in vals] if (cfg["repeated keys"] and len(vals) > 1) else [vals]
         for g in groups:
             if g:
@@ -99,9 +116,9 @@ def show(tokens):
     return "".join(t if isinstance(t, str) else ("‹%s›" % t[1] if t[0] == "raw" else "‹%%%s›" % t[1]) for t in tokens)
 
 
-def run(ctx, func, cfg):
+def run(ctx, func, cfg, mapping_=None):
     interp = Interp(ctx, overrides={("constants", "ignore_url_escape_characters"): cfg["_ignore"]})
     dialect = {k: v for k, v in cfg.items() if not k.startswith("_")}
-    keyvals = {k: [Sym(v, "str", True) for v in vals] for k, vals in MAPPING}
-    traces = interp.run(func, {"keyvals": keyvals, "dialect": dialect, "keep_order": False, "sort_attribute_values": False})
+    keyvals = {k: [Sym(v, "str", True) for v in vals] for k, vals in (mapping_ or MAPPING)}
+    traces = interp.run(func, {"keyvals": keyvals, "dialect": dialect, "keep_order": bool(cfg.get("_keep_order")), "sort_attribute_values": False})
     return traces
